@@ -25,7 +25,7 @@ def conforms(v, T, world):
     if k == "union":
         return any(conforms(v, t, world) for t in T[1])
     if k == "literal":
-        return any(c is v or c == v for c in T[1])
+        return any(type(c) is type(v) and c == v for c in T[1])  # (True is not the choice 1, 1.0 is not 1)
     if k == "tuple":
         return isinstance(v, tuple) and len(v) == len(T[1]) and all(conforms(x, t, world) for x, t in zip(v, T[1]))
     if k == "vtuple":
